@@ -10,6 +10,17 @@ from lsfverif.gen.machines import FN_PREFIX
 P = lambda **kw: dict(Type="Pass", **kw)
 T = lambda fn, **kw: dict(Type="Task", Resource=FN_PREFIX + fn, **kw)
 W = lambda s, **kw: dict(Type="Wait", Seconds=s, **kw)
+# the "long form" of the same function call (Resource ...:rpcmessage:invoke, the function named in Parameters); OutputPath selects the
+# function's own result out of the metadata dictionary, so that it is a drop-in replacement for T where no path field is given
+TL = lambda fn, **kw: dict(Type="Task", Resource="arn:aws:states:local::rpcmessage:invoke", Parameters={"FunctionName": FN_PREFIX + fn, "Payload.$": "$"},
+                           OutputPath="$.Payload", **kw)
+
+
+def task(rng, fn, **kw):
+    """T or, one time in four, TL."""
+    if rng is not None and not any(k in kw for k in ("ResultPath", "OutputPath", "Parameters", "ResultSelector", "InputPath")) and rng.random() < 0.25:
+        return TL(fn, **kw)
+    return T(fn, **kw)
 
 
 def chain(states):
@@ -43,7 +54,7 @@ def body(rng, names, kind=None, fail=None, depth=0, max_len=3, tag=None):
     for i in range(n):
         k = kind or rng.choice(["Task", "Task", "Wait", "Pass"])
         if k == "Task":
-            sts.append((names(), T("echo")))
+            sts.append((names(), task(rng, "echo")))
         elif k == "Wait":
             sts.append((names(), W(rng.randint(1, 4))))
         else:
@@ -52,9 +63,9 @@ def body(rng, names, kind=None, fail=None, depth=0, max_len=3, tag=None):
         sts.insert(rng.randint(0, len(sts)), (names(), fanout(rng, names, depth - 1)[0]))
     if fail is None and rng.random() < 0.3:
         # branch outputs that are falsy but not null are ordinary results
-        sts.append((names(), P(Result=copy.deepcopy(rng.choice(FALSY))) if rng.random() < 0.5 else T(rng.choice(["zero", "empty", "nil"]))))
+        sts.append((names(), P(Result=copy.deepcopy(rng.choice(FALSY))) if rng.random() < 0.5 else task(rng, rng.choice(["zero", "empty", "nil"]))))
     if fail == "task":
-        sts.append((names(), T("boom")))
+        sts.append((names(), task(rng, "boom")))
     elif fail == "state":
         sts.append((names(), {"Type": "Fail", "Error": "Branch.Failed", "Cause": "because"}))
     return chain(sts)
